@@ -395,7 +395,32 @@ def corpus():
     C.extend(cross_corpus())
     C.extend(long_name_corpus())
     C.extend(escaping_import_corpus())
+    C.extend(module_class_import_corpus())
     return C
+
+
+def module_class_import_corpus():
+    """Every import form x every class of module Python can import (source module, source package, frozen stdlib,
+    builtin, C extension, pip-installed), in the target, in a followed local import and in a package __init__.
+    Found via a reviewer's note: `from math import *` (an ordinary statement) crashed in expand_starred_imports
+    (fixed upstream in 6f46129); no row had a star import of a module without Python source."""
+    mods = [("math", "sqrt"), ("sys", "argv"), ("os", "getcwd"), ("json", "dumps"), ("time", "sleep"), ("zlib", "crc32"),
+            ("itertools", "chain"), ("_thread", "allocate_lock"), ("array", "array"), ("attrs", "define"),
+            ("collections", "OrderedDict"), ("builtins", "len"), ("posix", "getcwd"), ("unicodedata", "name")]
+    forms = ["import {m}", "import {m} as z", "from {m} import {n}", "from {m} import {n} as q", "from {m} import *"]
+    out = []
+    for m, n in mods:
+        for fi, form in enumerate(forms):
+            stmt = form.format(m=m, n=n)
+            body = stmt + f"\ndef use(p):\n    return {n}(p.x)\n"
+            out.append({"row": f"modclass:{m}:{fi}:target", "files": {"target.py": body}, "opts": [], "target": "target.py"})
+            out.append({"row": f"modclass:{m}:{fi}:followed", "files": {"lib.py": body, "target.py": "from lib import use\ndef main(r):\n    return use(r)\n"},
+                        "opts": [], "target": "target.py"})
+            if fi == 4:
+                out.append({"row": f"modclass:{m}:{fi}:init", "files": {"pkg/__init__.py": body, "target.py": "from pkg import use\ndef main(r):\n    return use(r)\n"},
+                            "opts": [], "target": "target.py"})
+                out.append({"row": f"modclass:{m}:{fi}:f3", "files": {"target.py": body}, "opts": ["-f", "3"], "target": "target.py"})
+    return out
 
 
 def long_name_corpus():
